@@ -51,9 +51,19 @@ func main() {
 	}
 	c := vlib.NewCtx(id, tier, ck.Level)
 	c.ReplayFile = replay
+	if replay != "" && !ownReplay[id] {
+		if err := c.LoadReplayKey(); err != nil {
+			fmt.Fprintln(os.Stderr, "replay:", err)
+			os.Exit(2)
+		}
+	}
 	ck.Run(c)
 	os.Exit(c.Finish())
 }
+
+// ownReplay: checks that re-execute the recorded history / schedule / case alone; the others re-run their enumeration and
+// report only the recorded class.
+var ownReplay = map[string]bool{"C11": true, "C14": true, "C16": true, "C17": true}
 
 func usage() {
 	var ids []string
